@@ -56,12 +56,15 @@ func VerifC18Callgrind() {
 	l1 := &profile.Location{ID: 1, Mapping: m, Address: ad[0], Line: []profile.Line{{Function: f1, Line: 1}}}
 	l2 := &profile.Location{ID: 2, Mapping: m, Address: ad[1], Line: []profile.Line{{Function: f2, Line: 2}}}
 	l3 := &profile.Location{ID: 3, Mapping: m, Address: ad[2], Line: []profile.Line{{Function: f3, Line: 3}}}
+	f4 := &profile.Function{ID: 4, Name: "tail", SystemName: "tail", Filename: "t.go"}
+	l4 := &profile.Location{ID: 4, Mapping: m, Address: ad[2] + 0x40, Line: []profile.Line{{Function: f4, Line: 4}}}
 	p := &profile.Profile{
 		SampleType: []*profile.ValueType{{Type: "samples", Unit: "count"}},
-		Mapping:    []*profile.Mapping{m}, Function: []*profile.Function{f1, f2, f3}, Location: []*profile.Location{l1, l2, l3},
+		Mapping:    []*profile.Mapping{m}, Function: []*profile.Function{f1, f2, f3, f4}, Location: []*profile.Location{l1, l2, l3, l4},
 		Sample: []*profile.Sample{
 			{Location: []*profile.Location{l2, l1}, Value: []int64{3}},
 			{Location: []*profile.Location{l3, l2, l1}, Value: []int64{2}},
+			{Location: []*profile.Location{l4, l3, l2, l1}, Value: []int64{1}},
 		},
 	}
 	rpt := NewDefault(p, Options{OutputFormat: Callgrind, OutputUnit: "count"})
